@@ -11,6 +11,79 @@ import replaylib as rl
 IMPORTS = ('From SV Require Import Base.Sym Base.Tensor Gen.PhasePerm Model.SymInst Model.Sectors Model.Array Model.Arith Model.Fermi Model.Ctor Model.FermiReduce.\n')
 SYMS = ['Z2', 'U1', 'Z2Z2', 'U1U1']
 
+# ---- translator tie of the sign bookkeeping (Gen/PhasesGen.v, tr/gen_phases.py): own imports and own shards, so
+# that the hand-model cases above keep evaluating when the generated file is missing ----
+IMPORTS_GEN = ('From SV Require Import Base.Sym Base.Tensor Gen.PhasePerm Gen.OpOrder Gen.PhasesGen Model.SymInst Model.Array.\n')
+GEN_PRE = ('Definition tbl_eqb (G : Symmetry) := list_eqb (pair_eqb (list_eqb (ceqb G)) Z.eqb).\n'
+           'Definition keys_eqb (G : Symmetry) := list_eqb (list_eqb (ceqb G)).\n'
+           'Definition no_move (G : Symmetry) (ix : list gindex) (bl : list (list (C G) * unit)) (ax : list Z) := (ix, bl).\n'
+           'Definition same_state (G : Symmetry) {B} (st : list gindex * C G * list (list (C G) * B) * list (list (C G) * Z) * list op)\n'
+           '  (ix : list bool) (ch : C G) (ks : list (list (C G))) (ph : list (list (C G) * Z)) (odd : list op) : bool :=\n'
+           '  list_eqb Bool.eqb (st_indices st) ix && ceqb G (st_charge st) ch && keys_eqb G (keys (st_blocks st)) ks\n'
+           '  && tbl_eqb G (st_phases st) ph && list_eqb op_eq (st_oddpos st) odd.\n')
+
+
+def gtable(ph):
+    """the pending-sign dict as it is: every item, in insertion order"""
+    return '[' + '; '.join('(%s, %s)' % (gen.gsec(s), gen.gnum(int(v))) for s, v in ph.items()) + ']'
+
+
+def gzlist(l):
+    return '[' + '; '.join(gen.gnum(v) for v in l) + ']'
+
+
+def gstate_args(x, blocks=None):
+    return '%s %s %s %s %s' % ('[' + '; '.join('true' if ix.dual else 'false' for ix in x.indices) + ']', gen.gch(x.charge),
+                               blocks if blocks is not None else '[' + '; '.join('(%s, tt)' % gen.gsec(s) for s in x.blocks) + ']',
+                               gtable(x.phases), gen.goddpos(x.oddpos))
+
+
+def gsame_state(sym, call, y):
+    """the generated function's whole result against the array the implementation returned: index directions, charge,
+    block keys (order), sign table (items, order), odd-position labels"""
+    return 'same_state %s (%s) %s %s %s %s %s' % (
+        sym, call, '[' + '; '.join('true' if ix.dual else 'false' for ix in y.indices) + ']', gen.gch(y.charge),
+        '[' + '; '.join(gen.gsec(s) for s in y.blocks) + ']', gtable(y.phases), gen.goddpos(y.oddpos))
+
+
+def generated_cases(x, sym, ring, axs, perm, sec):
+    """[(method, boolean Gallina term)]: each function of Gen/PhasesGen.v (translated from the current source by
+    tr/gen_phases.py) on the state of x against what the implementation's method returns for x"""
+    st = gstate_args(x)
+    out = []
+
+    def case(nm, call, y):
+        out.append((nm, gsame_state(sym, call, y)))
+    nd = x.ndim
+    case('phase_global', 'phase_global_gen %s unit %s' % (sym, st), x.phase_global())
+    case('phase_flip', 'phase_flip_gen %s unit %s %s' % (sym, st, gzlist(axs)), x.phase_flip(*axs))
+    case('phase_flip_none', 'phase_flip_gen %s unit %s []' % (sym, st), x.phase_flip())
+    case('phase_transpose', 'phase_transpose_gen %s unit %s (Some %s)' % (sym, st, gzlist(perm)), x.phase_transpose(tuple(perm)))
+    case('phase_transpose_none', 'phase_transpose_gen %s unit %s None' % (sym, st), x.phase_transpose())
+    if sec is not None:
+        case('phase_sector', 'phase_sector_gen %s unit %s %s' % (sym, st, gen.gsec(sec)), x.phase_sector(sec))
+    # transpose: the block keys / index order are moved by AbelianArray.transpose (not translated): the generated
+    # function is given the identity for it, so only charge, sign table and labels are compared
+    for nm, ax, phf, y in (('transpose', 'Some %s' % gzlist(perm), True, x.transpose(tuple(perm))),
+                           ('transpose_none', 'None', True, x.transpose()),
+                           ('transpose_nophase', 'Some %s' % gzlist(perm), False, x.transpose(tuple(perm), phase=False))):
+        call = 'transpose_gen %s unit (no_move %s) %s (%s) %s' % (sym, sym, st, ax, 'true' if phf else 'false')
+        out.append((nm, 'tbl_eqb %s (st_phases (%s)) %s && list_eqb op_eq (st_oddpos (%s)) %s' % (
+            sym, call, gtable(y.phases), call, gen.goddpos(y.oddpos))))
+    for pp in (True, False):
+        for pd in (True, False):
+            case('conj_%d%d' % (pp, pd), 'conj_gen %s unit (fun b => b) %s %s %s' % (sym, st, 'true' if pp else 'false', 'true' if pd else 'false'),
+                 x.conj(phase_permutation=pp, phase_dual=pd))
+    for pd in (True, False):
+        case('dagger_%d' % pd, 'dagger_gen %s unit (fun b => b) (fun b => b) %s %s' % (sym, st, 'true' if pd else 'false'), x.dagger(phase_dual=pd))
+    # phase_sync with the real blocks: which blocks are negated
+    y = x.phase_sync()
+    blk = lambda a: '[' + '; '.join('(%s, %s)' % (gen.gsec(s), gen.gtensor(b, ring)) for s, b in a.blocks.items()) + ']'   # noqa: E731
+    call = 'phase_sync_gen %s (tensor %s) (tneg %s) %s' % (sym, ring, ring, gstate_args(x, blocks=blk(x)))
+    out.append(('phase_sync', 'blocks_eqb_strict %s %s (st_blocks (%s)) %s && tbl_eqb %s (st_phases (%s)) %s' % (
+        sym, ring, call, blk(y), sym, call, gtable(y.phases))))
+    return out
+
 
 def describe(x):
     return {'class': type(x).__name__, 'charge': x.charge, 'oddpos': [repr(o) for o in x.oddpos],
@@ -238,6 +311,7 @@ def run(ctx):
     rng = ctx.rng
     n_cases = 700 if ctx.thorough else 130
     exprs, meta, found = [], [], []
+    gexprs, gmeta, gstat = [], [], {}
     opstat, raised = {}, {}
     n_reduction_cases, found_values = {}, []     # value failures are reported after the lazy-vs-synchronised ones
     for k in range(n_cases):
@@ -344,6 +418,15 @@ def run(ctx):
                     ('dagger_pd', x.dagger(phase_dual=True), 'f_dagger %s %s true' % (A, gen.gfarray(x, sym, ring)))):
                 exprs.append('farray_eqb_strict %s (%s) %s' % (A, mexpr, gen.gfarray(res, sym, ring)))
                 meta.append((nm, sym, k)); ctx.count()
+        # translator tie: the functions generated from the current source of the methods against the methods
+        if nd:
+            try:
+                gsec0 = rng.choice(list(x.blocks)) if x.blocks else None
+                for nm, e in generated_cases(x, sym, gen.ring_of(x), axs, perm, gsec0):
+                    gexprs.append(e); gmeta.append((nm, sym, k)); ctx.count()
+                    gstat[nm] = gstat.get(nm, 0) + 1
+            except Exception as e:
+                raised['generated_cases'] = raised.get('generated_cases', 0) + 1
         if nd >= 2:
             g = sorted(rng.sample(range(nd), 2))
             if rng.random() < 0.5:
@@ -446,6 +529,14 @@ def run(ctx):
     elif bad_idx:
         tie_broken += ['Model.%s disagrees with the implementation (symmetry %s, case %d)' % meta[i] for i in bad_idx[:10]]
         ctx.extra['disagreeing_cases'] = [exprs[i][:3000] for i in bad_idx[:2]]
+    gbad = common.run_cases(ctx, 'gen', IMPORTS_GEN, GEN_PRE, gexprs, shard=120)
+    if gbad is None:
+        tie_broken.append('cases.v (functions generated from the phase methods vs implementation) did not evaluate')
+    elif gbad:
+        tie_broken += ['Gen.PhasesGen.%s_gen disagrees with the implementation (symmetry %s, case %d)' % (
+            gmeta[i][0].split('_')[0] if not gmeta[i][0].startswith('phase_') else '_'.join(gmeta[i][0].split('_')[:2]), gmeta[i][1], gmeta[i][2])
+            for i in gbad[:10]]
+        ctx.extra['disagreeing_generated_cases'] = [gexprs[i][:3000] for i in gbad[:2]]
     kf = [f for f in common.load_known_findings().get('findings', []) if f.get('property') == 'C09']
     reported = set()
     for f in found:
@@ -466,7 +557,8 @@ def run(ctx):
     ctx.extra['operations_compared'] = opstat
     ctx.extra['operations_that_raised_on_both'] = raised
     ctx.extra['tie'] = {'model_cases': len(exprs), 'reduction_model_cases': sum(n_reduction_cases.values()),
-                        'reduction_model_cases_by_op': n_reduction_cases}
+                        'reduction_model_cases_by_op': n_reduction_cases,
+                        'generated_phase_function_cases': len(gexprs), 'generated_phase_function_cases_by_method': gstat}
     ctx.coverage['rule'] = ('random fermionic arrays (rank 1-3, four symmetries, even/odd, sparse, real + Gaussian-integer) with pending-sign tables '
                             'produced by 1-4 random phase operations; every public operation applied to the lazy array and to its synchronised '
                             'copy, results compared at value level (signs applied); non-trivial = non-empty pending-sign table; distinct by '
